@@ -817,7 +817,7 @@ class _InternalBaseTracer(_InternalBaseTracerSuper, metaclass=MetaTracerStateMac
         ):
             if isinstance(code, str):
                 code = textwrap.dedent(code).strip()
-                code = self.parse(code)
+                code = self.parse(code, mode="eval" if do_eval else "exec")
             if instrument:
                 code = self.make_ast_rewriter(path=filename).visit(code)
             code_obj = compile(code, filename, "eval" if do_eval else "exec")
@@ -871,6 +871,8 @@ class _InternalBaseTracer(_InternalBaseTracerSuper, metaclass=MetaTracerStateMac
         ):
             visited = False
             if isinstance(code, str):
+                # as the builtin does: leading blanks are not indentation
+                code = code.lstrip(" \t")
                 if instrument:
                     visited = True
                     code = cast(ast.Expression, self.parse(code, mode="eval"))
